@@ -654,6 +654,18 @@ def splice_contract(fn_text: str, path: str, c: Contract) -> Rendered:
     if where_tok is not None:
         where_txt = "\n    " + src.text[toks[where_tok].start:toks[body_open].start].strip()
 
+    # R4 receiver rule: for a `&self` (or by-value) receiver the pre- and post-state of `self` coincide, and Verus rejects
+    # old(self)/final(self) on it - so a contract written for `&mut self` stays readable when the function is changed to
+    # `&self` (and fails where it no longer holds) instead of losing its anchor
+    params_txt = re.sub(r"\s+", "", src.text[toks[k].end:toks[params_close].start])
+    if not params_txt.startswith("&mutself") and not re.match(r"&'[a-z_]+mutself", params_txt):
+        def _collapse(t: str) -> str:
+            return re.sub(r"\b(?:old|final)\(\s*self\s*\)", "self", t)
+        c = Contract(requires=[_collapse(x) for x in c.requires], ensures=[(o, _collapse(t)) for (o, t) in c.ensures], prologue=c.prologue,
+                     loops={n: {"invariant": [(o, _collapse(t)) for (o, t) in lp.get("invariant", [])],
+                                "decreases": (_collapse(lp["decreases"]) if lp.get("decreases") else lp.get("decreases")),
+                                **{kk: vv for kk, vv in lp.items() if kk not in ("invariant", "decreases")}} for n, lp in (c.loops or {}).items()},
+                     rename=c.rename, result=c.result, attrs=c.attrs, opens=c.opens, spec_decreases=c.spec_decreases)
     lines: list[str] = []
     ids: list[tuple[int, str]] = []
     pre_attrs = "".join(a + "\n" for a in (c.attrs or []))
